@@ -10,7 +10,7 @@ import (
 
 func init() {
 	Register(&Prop{
-		ID: "C18", Bubble: false, Run: runC18, QuickRuns: 3000,
+		ID: "C18", Bubble: true, Run: runC18, QuickRuns: 3000,
 		Rule: "one run = one measurement primitive (Minimum, Single, ExponentialAverage, SimpleExponentialMovingAverage, SimpleMovingVariance, WindowlessMovingPercentile, ImmutableSampleWindow) with seeded constructor parameters and a history of up to 200 Add / Get / Reset / Update operations over finite positive samples (backend rtts, powers of two, near-equal values); " +
 			"oracle: reference fold per primitive (min since reset, last value, arithmetic mean during warm-up then a value inside the hull of the samples, variance >= 0, window = exact summary independent of order, receiver unchanged), Reset == fresh instance (twin run on the remaining history), flag true whenever the stored value changed; " +
 			"non-trivial = the history contained a Reset followed by at least two Adds (or, for the sample window, at least three samples incl. a drop); distinct = distinct choice tapes",
@@ -53,8 +53,8 @@ func drawMeasurement(t *Tape) measFactory {
 	default:
 		p := []float64{0.9, 0.5, 0.99, 0.1}[t.Intn(4, "p")]
 		d := []float64{0.01, 1, 0.5}[t.Intn(3, "delta")]
-		a1 := []float64{0.05, 0.5, 0.2}[t.Intn(3, "alpha-avg")]
-		a2 := []float64{0.05, 0.5, 0.2}[t.Intn(3, "alpha-var")]
+		a1 := []float64{0.05, 0.5, 0.2, 1.0}[t.Intn(4, "alpha-avg")]
+		a2 := []float64{0.05, 0.5, 0.2, 1.0}[t.Intn(4, "alpha-var")]
 		return measFactory{fmt.Sprintf("percentile(p=%g,delta=%g,%g,%g)", p, d, a1, a2), func() core.MeasurementInterface {
 			m, _ := measurements.NewWindowlessMovingPercentile(p, d, a1, a2)
 			return m
@@ -89,7 +89,10 @@ func applyUpdate(m core.MeasurementInterface, f int) {
 }
 
 func drawSampleValue(t *Tape, base float64) float64 {
-	switch t.Intn(5, "value-kind") {
+	switch t.Intn(6, "value-kind") {
+	case 5:
+		// small dyadic values (arithmetic progressions, exactly representable deviations)
+		return float64(4 * (1 + t.Intn(8, "dyadic")))
 	case 0:
 		return base * (1 + float64(t.Intn(1000, "v"))/1000)
 	case 1:
@@ -107,6 +110,10 @@ func runC18(r *Run) {
 	t := r.T
 	if t.Intn(7, "window?") == 0 {
 		runC18Window(r)
+		return
+	}
+	if t.Chance(6, "concurrent") {
+		runC18Concurrent(r)
 		return
 	}
 	mf := drawMeasurement(t)
@@ -335,5 +342,104 @@ func runC18Window(r *Run) {
 	}
 	if n >= 3 && drops > 0 && cnt > 0 {
 		r.Nontrivial = true
+	}
+}
+
+// runC18Concurrent: Add / Update / Reset issued from several goroutines on one instance (the
+// update function itself contains a scheduling point). The final value must be one that some
+// sequential order of the same operations produces on a fresh instance (per-task order kept).
+func runC18Concurrent(r *Run) {
+	t := r.T
+	mf := drawMeasurement(t)
+	key := primKey(mf.name)
+	nTasks := 2 + t.Intn(2, "tasks")
+	scripts := make([][]measOp, nTasks)
+	total := 0
+	for i := range scripts {
+		n := 1 + t.Intn(2, "ops")
+		for k := 0; k < n; k++ {
+			op := measOp{kind: []int{0, 0, 3, 2}[t.Intn(4, "op")]}
+			op.x = float64(4 * (1 + t.Intn(8, "x")))
+			op.f = t.Intn(2, "update-f")
+			scripts[i] = append(scripts[i], op)
+			total++
+		}
+	}
+	r.Mixf("C18 concurrent %s scripts=%v", mf.name, scripts)
+	apply := func(m core.MeasurementInterface, op measOp, yield bool) {
+		switch op.kind {
+		case 0:
+			m.Add(op.x)
+		case 2:
+			m.Reset()
+		case 3:
+			m.Update(func(v float64) float64 {
+				if yield {
+					globalHook(kYield, "update-fn")
+				}
+				if op.f == 0 {
+					return v*0.5 + 1
+				}
+				return v + 2
+			})
+		}
+	}
+	shared := mf.mk()
+	shared.Add(16) // a common starting point
+	s := r.NewSched()
+	for i := range scripts {
+		sc := scripts[i]
+		s.Go("user", func(tk *Task) {
+			for _, op := range sc {
+				tk.Begin("op", op.kind)
+				apply(shared, op, true)
+				tk.End(nil)
+			}
+		})
+	}
+	s.Run()
+	if s.Failed() != nil || s.Truncated || s.Leftover() > 0 {
+		return
+	}
+	final := shared.Get()
+	reach := map[float64]bool{}
+	pos := make([]int, nTasks)
+	var order []measOp
+	var rec func(left int)
+	rec = func(left int) {
+		if left == 0 {
+			m := mf.mk()
+			m.Add(16)
+			for _, op := range order {
+				apply(m, op, false)
+			}
+			reach[m.Get()] = true
+			return
+		}
+		for i := range scripts {
+			if pos[i] < len(scripts[i]) {
+				order = append(order, scripts[i][pos[i]])
+				pos[i]++
+				rec(left - 1)
+				pos[i]--
+				order = order[:len(order)-1]
+			}
+		}
+	}
+	rec(total)
+	r.Probe("concurrent_measurement_checked")
+	if len(reach) > 1 {
+		r.Nontrivial = true
+	}
+	ok := reach[final]
+	if !ok && final != final { // NaN never equals itself
+		for v := range reach {
+			if v != v {
+				ok = true
+			}
+		}
+	}
+	if !ok {
+		r.Fail("concurrent-ops-not-serializable", key, "operations %v issued from %d goroutines left Get() = %v; no sequential order of the same operations on a fresh instance gives that value (possible: %v) - an operation was not atomic [%s]", scripts, nTasks, final, reach, mf.name)
 	}
 }
